@@ -6,17 +6,19 @@ import subprocess
 import sys
 import xml.etree.ElementTree as ET
 
+BUILD = sys.argv[1] if len(sys.argv) > 1 else "/repo/_build"
+JUNIT = "/tmp/junit_%s.xml" % abs(hash(BUILD))
 b = json.load(open("/root/.vp/BASELINE.json"))
 import os
 stable_raw = set(b["stable_pass"])
 env = set(json.load(open(os.path.join(os.path.dirname(os.path.abspath(__file__)), "local_env_failures.json")))["failing"])
-rc = subprocess.call(["cmake", "--build", "/repo/_build", "-j16"], stdout=subprocess.DEVNULL)
+rc = subprocess.call(["cmake", "--build", BUILD, "-j16"], stdout=subprocess.DEVNULL)
 if rc != 0:
     print("BUILD FAILED")
     sys.exit(1)
-subprocess.call(["ctest", "--test-dir", "/repo/_build", "-j8", "--timeout", "900", "--output-junit", "/tmp/junit_baseline.xml"],
+subprocess.call(["ctest", "--test-dir", BUILD, "-j8", "--timeout", "900", "--output-junit", JUNIT],
                 stdout=subprocess.DEVNULL, stderr=subprocess.DEVNULL)
-t = ET.parse("/tmp/junit_baseline.xml")
+t = ET.parse(JUNIT)
 res = {}
 for tc in t.getroot().iter("testcase"):
     ok = tc.get("status") == "run" and tc.find("failure") is None
@@ -30,7 +32,7 @@ still = []
 for n in bad:
     ok = False
     for _ in range(3):
-        r = subprocess.call(["ctest", "--test-dir", "/repo/_build", "-R", "^" + n.replace("+", ".").replace("(", ".").replace(")", ".").replace("<", ".").replace(">", ".").replace("*", ".") + "$", "--timeout", "900"],
+        r = subprocess.call(["ctest", "--test-dir", BUILD, "-R", "^" + n.replace("+", ".").replace("(", ".").replace(")", ".").replace("<", ".").replace(">", ".").replace("*", ".") + "$", "--timeout", "900"],
                             stdout=subprocess.DEVNULL, stderr=subprocess.DEVNULL)
         if r == 0:
             ok = True
